@@ -38,14 +38,17 @@ Fixpoint omap {A B} (f : A -> option B) (l : list A) : option (list B) :=
   | x :: r => match f x, omap f r with Some y, Some ys => Some (y :: ys) | _, _ => None end
   end.
 
+(* an element without text (<p/>) holds no tokens *)
+Definition text_or_nil (x : xml) : toks := match xtext x with Some t => t | None => [] end.
+
 Definition read_param (x : xml) : option atom := get_str (xattr a_name x).
 Definition read_source (x : xml) : option source :=
   match get_str (xattr a_id x), find ns a_float_array x, find_path ns [a_technique_common; a_accessor] x with
   | Some id, Some arr, Some acc =>
-      match xtext arr, get_int (xattr a_count arr), get_int (xattr a_count acc), omap read_param (findall ns a_param acc) with
-      | Some data, Some n, Some rows, Some comps =>
-          Some {| s_id := id; s_data := data; s_comps := comps; s_count := n; s_acount := rows |}
-      | _, _, _, _ => None
+      match get_int (xattr a_count arr), get_int (xattr a_count acc), omap read_param (findall ns a_param acc) with
+      | Some n, Some rows, Some comps =>
+          Some {| s_id := id; s_data := text_or_nil arr; s_comps := comps; s_count := n; s_acount := rows |}
+      | _, _, _ => None
       end
   | _, _, _ => None
   end.
@@ -78,11 +81,12 @@ Definition read_input (x : xml) : option input :=
   | _, _, _ => None
   end.
 Definition read_prim (x : xml) : option prim :=
-  match tag_kind (xtag x), get_int (xattr a_count x), omap read_input (findall ns a_input x), omap xtext (findall ns a_p x) with
-  | Some k, Some n, Some ins, Some ps =>
+  match tag_kind (xtag x), get_int (xattr a_count x), omap read_input (findall ns a_input x) with
+  | Some k, Some n, Some ins =>
       Some {| p_kind := k; p_material := xattr a_material x; p_count := n; p_inputs := ins;
-              p_vcount := match find ns a_vcount x with Some v => xtext v | None => None end; p_ps := ps |}
-  | _, _, _, _ => None
+              p_vcount := match find ns a_vcount x with Some v => Some (text_or_nil v) | None => None end;
+              p_ps := map text_or_nil (findall ns a_p x) |}
+  | _, _, _ => None
   end.
 
 (* ------------------------------------------------------------------ geometry *)
